@@ -19,7 +19,7 @@ import (
 func newScenarioGen(r *vh.Rand, nv int, et uint64, cq, pv bool) *gen {
 	c := &raftsim.Cluster{Nodes: map[uint64]*raftsim.Node{}}
 	c.HT, c.ET, c.CQ, c.PV = 1, et, cq, pv
-	g := &gen{r: r, c: c, started: map[uint64]byte{}, pending: map[uint64]byte{}, blocked: map[uint64]bool{}, quiesced: map[uint64]int{}, nextKey: 500}
+	g := &gen{r: r, c: c, started: map[uint64]byte{}, pending: map[uint64]byte{}, blocked: map[uint64]bool{}, quiesced: map[uint64]int{}, nextKey: 500, nboot: nv}
 	g.Driver = &raftsim.Driver{C: c}
 	g.Record = func(op string, rt uint64) { g.ops = append(g.ops, fmt.Sprintf("%s @%d", op, rt)) }
 	var init []string
